@@ -7,24 +7,20 @@ ID = "C05"
 MODEL_MODULES = ["Base", "Index", "Slice"]
 HANDLERS = ["h_c05.ml"]
 CLAIM = dict(
-    text=("The pinned slice arithmetic does NOT implement Python's slice.indices on the whole quantifier (about two thirds "
-          "of the per-axis box gives a wrong length and/or wrong source indices, because extents are size_t, bounds are "
-          "int, and the length goes through a binary32 and a 32-bit int). Kernel-checked: (1) C05_slice_python_on_core — "
-          "for EVERY extent n < 2^24 and all int bounds, on the intensional input class slice_core (all-None; ::+-s; "
-          ":b[:+s] with b >= -n; a:[:+s] with 0<=a<=n; a::-s with 0<=a<n; a:b[:+s] with ordered in-range bounds or stop "
-          "past the end) the model's length and every source index equal Python's; (2) C05_core_sound_on_box / "
-          "C05_core_coverage_on_box — vm_compute sweeps over the stated box; (3) C05_refuted_* — witnesses of every "
-          "failing family, incl. binary32 lengths above 2^24 and the trailing-ellipsis read that makes the typed-tuple "
-          "and the run-time-list encodings disagree; (4) C05_multi_axis — axes compose, integers drop their axis, one "
-          "ellipsis expands to full slices, for any rank. Correspondence: the model (image of compute_range / compute_step / compute_index / shape_slice / slice / "
-          "shape_dynamic_slice / dynamic_slice) is compared with the real C++ on the whole per-axis box in four encodings "
-          "(typed tuple through apply_*; direct variadic call with std::array shape; run-time list of either; list of "
-          "std::array<int,K>; plus compile-time-constant parts for a table of non-negative values), length AND every source index, and on seeded 1..3-axis combinations with integers and an "
-          "ellipsis at index and at view level. impl = model is required wherever the model is defined; impl = Python "
-          "is required on slice_core and wherever the model agrees with Python; the remaining disagreement with Python "
-          "is the known finding (class predicate = the pinned model itself), so any new deviation is a violation."),
-    ref="5.5", technique="Coq proof on the characterised input class + machine-checked refutations outside it + differential "
-                         "correspondence with the extracted model", extra="")
+    text=("Model = index/slice.hpp after the repair 'fix: slice arithmetic follows python's slice.indices' (normalize_slice = "
+          "PySlice_AdjustIndices in int64_t, integer ceiling for the length; the pinned size_t/int/binary32 arithmetic was wrong on "
+          "5 127 of the 7 588 inputs of the per-axis box). Kernel-checked for EVERY input of the argument types - extent below 2^62, "
+          "int bounds (None, negative, out of range) and non-zero int step: (1) C05_normalize_is_slice_indices - the normalised "
+          "(start, stop, step) are Python's and no int64_t/size_t operation of the model wraps; (2) C05_slice_python - the length is "
+          "Python's len(range(*slice.indices(n))) and element k is source element start' + k*step; (3) C05_index_in_bounds - every "
+          "source index lies in [0,n); (4) C05_multi_axis - any rank: integers drop their axis, one ellipsis stands for the "
+          "remaining (possibly zero) axes, shape and every source multi-index are Python's; (5) C05_python_on_box - independent "
+          "vm_compute sweep of the 10 388 box inputs. Correspondence: the real C++ against the extracted model and against Python on "
+          "the whole per-axis box in five encodings (typed tuple through apply_*; direct variadic call with std::array shape; "
+          "run-time list of either; list of std::array<int,K>; compile-time-constant parts incl. negative ones), length AND every "
+          "source index; extents around 2^24 and up to 2^31-1; seeded 1..3-axis combinations with integers and an ellipsis in every "
+          "position (also standing for no axis) at index and at view level, both encodings; view::slice with a single slice."),
+    ref="5.5", technique="Coq proof for all inputs of the argument types + differential correspondence with the extracted model", extra="")
 RULE = ("stream box: every n in 1..6, start/stop in [-(n+2), n+2] or None, step in {-3..-1,1..3}, None or omitted (2-part slice) "
         "= 12 type patterns, through 4 encodings (var/tup/dyn/arr; quick tier rotates the encoding per case but covers every "
         "(pattern, encoding) pair, thorough runs all) + a table of 48 compile-time-constant slices (size_t constants) x n in 1..6; stream edge: extents near 2^24 and 2^31 with bounds near 0, +-n, index math only; "
@@ -32,23 +28,16 @@ RULE = ("stream box: every n in 1..6, start/stop in [-(n+2), n+2] or None, step 
         "combinations, thorough 400) x value draws, index level (shape + every source multi-index) and view level (shape + every "
         "element); stream single: view::slice(a, one slice) on 1-d arrays. "
         "non-trivial = a case with at least one integer bound or step; distinct = distinct case lines")
-THEOREM_STATUS = {"proved": ["C05_slice_python_on_core", "C05_python_index_in_bounds", "C05_multi_axis",
-                             "C05_encodings_agree_on_domain", "C05_internal_slices_in_core", "C05_core_sound_on_box",
-                             "C05_core_coverage_on_box", "C05_float_model_consistent_on_sample"],
-                  "partial": [],
-                  "refuted": ["C05_refuted_negative_start_open", "C05_refuted_start_past_end", "C05_refuted_stop_below_minus_n",
-                              "C05_refuted_crossed_bounds", "C05_refuted_open_start_negative_step",
-                              "C05_refuted_negative_step_start", "C05_refuted_float_len", "C05_refuted_on_box",
-                              "C05_refuted_encodings_agree", "C05_refuted_single_range_view"]}
+THEOREM_STATUS = {"proved": ["C05_slice_python", "C05_normalize_is_slice_indices", "C05_index_in_bounds", "C05_multi_axis",
+                             "C05_python_on_box", "C05_zero_step_undefined"],
+                  "partial": [], "refuted": []}
 ASSUMPTIONS = [
-    "binary32: for |range|, step <= 2^24 the model takes ceil((float)range/step) to be the exact ceiling (argued in Slice.v; "
-    "cross-checked against the bit-level computation f32r on 16 560 operand pairs by C05_float_model_consistent_on_sample and "
-    "against the C++ on every case); larger operands use the bit-level computation",
-    "signed int overflow in bound arithmetic is modelled as wrap-around; every theorem requires -2^31 < bound < 2^31-1",
-    "shapes and indices have element type size_t (what views pass); an int-typed shape changes the dynamic path's arithmetic",
-    "the two encodings share ONE Gallina function for the per-axis arithmetic (their C++ differences do not change a value); "
-    "their agreement is corresponded on every case; the one modelled difference is the trailing-ellipsis shape read",
-    "well-formed indices only: parts account for every axis (the header has no error handling for other calls)",
+    "arguments have the C++ types the theorems name: bounds/steps are int, extents are size_t below 2^62, indices are size_t",
+    "step = 0 (Python raises ValueError) and integer parts outside [-n,n) (Python raises IndexError) are outside the quantifier: "
+    "spec = unspecified; the code divides by zero / returns an out-of-range index there",
+    "well-formed indices only: the parts account for every axis (the header has no error handling for other calls)",
+    "the typed-tuple and the run-time-list encodings are ONE Gallina function (their C++ differences do not change a value); "
+    "their agreement is corresponded on every case, not proved",
 ]
 
 
@@ -94,11 +83,11 @@ def gen_cases(rng, tier):
                         encs = [encs[n_enc[pat] % len(encs)]]
                     for e in encs:
                         add("box", "ax S:%s I:%d %s %s %s" % (e, n, P(a), P(b), P(c)), "a")
-    # ---- compile-time-constant parts (fixed table instantiated in the driver)
+    # ---- compile-time-constant parts (fixed table instantiated in the driver, negative constants included)
     for n in range(1, 7):
-        for a in (None, 0, 1, 2):
-            for b in (None, 1, 3, 5):
-                for c in ("O", 1, 2):
+        for a in (None, -2, 0, 2):
+            for b in (None, -1, 1, 5):
+                for c in ("O", -1, 2):
                     add("box", "ax S:ct I:%d %s %s %s" % (n, P(a), P(b), P(c)), "a")
     # ---- large extents, index math only (the length goes through binary32 above 2^24)
     big = [2**24 - 1, 2**24, 2**24 + 1, 2**24 + 3, 2**25 + 7, 2**27 + 11, 2**31 - 200, 2**31 - 65, 2**31 - 64, 2**31 - 1]
@@ -190,20 +179,5 @@ def case_pattern(line):
 
 
 def classify(line, impl, spec, model):
-    """a disagreement with Python is the known slice-arithmetic finding ONLY when the implementation does exactly
-    what the pinned model says (impl == model != python); where the model says the C++ is undefined (float -> int
-    conversion out of range) any output is that finding; everything else (impl != model) stays a violation."""
-    norm = lambda s: " ".join(s.split())
-    t = line.split(" ")
-    if t[0] == "v1":
-        return "view-slice-single-range" if impl.startswith("trap") else None
-    if t[0] == "ax" and int(t[2][2:]) > 2 ** 24:
-        if model == "ub": return "slice-float-len-ub"
-        return "slice-float-len" if (norm(impl) == norm(model) and norm(model) != norm(spec)) else None
-    if model == "trap out_of_range" and norm(impl) == model:
-        return "ellipsis-trailing-empty:variadic"
-    if model == "ub":
-        return "slice-arith-ub:" + case_pattern(line)
-    if norm(impl) == norm(model) and norm(model) != norm(spec):
-        return "slice-arith:" + case_pattern(line)
+    """no known finding is left for C05: every disagreement with Python is a violation"""
     return None
